@@ -97,5 +97,28 @@ PROPS.update({
     },
 })
 
+PROPS.update({
+    "C03": {
+        "level": "proof",
+        "text": "Kernel-checked for every run: reply_integrity (on the monitor predicate), ended_clean, later_fail, and completes - once the actor has ended every operation still in flight (queued for a permit, holding a permit, awaiting a reply, even with its envelope pushed after the receivers were dropped) completes within two of its own steps. The last case relies on the repaired reply wait, whose presence is extracted from src/actor_ref.rs on every run (Extracted.ask_wait_watches_closed). Correspondence + monitors C03.replyIntegrity / nothingPendingAfterEnd / laterFail on real traces.",
+        "note": PROOF_NOTE + " ask_join is covered by the existing suite only. The stranding interleaving exists only with true parallelism; on the real code it is exercised by the multi-thread hammer (thorough).",
+        "technique": "Lean 4 invariant proofs + progress theorem over label sequences + extraction of the reply-wait protocol + correspondence",
+        "monitors": ["C03"],
+        "corr": corr(["burst", "mixed", "handles", "timeouts"]),
+        "extract_items": ["ask_wait_watches_closed"],
+        "assumptions": COMMON_ASSUME + ["Sender::closed() completes once the receiver is closed or dropped"],
+    },
+    "C06": {
+        "level": "proof",
+        "text": "Kernel-checked: kill_total (in every state kill() is enabled, returns Ok in its own label, queues nothing, records nothing), kill_bound (on the monitor predicate: after kill() on an actor that had not begun to stop at most one further handler starts, for every schedule and queue content; the bound is shown tight), kill_not_lost, kill_prompt. Monitors C06.killTotal / killBound / killOutcome / leftoversFail on every real trace; burst family lands kills at every phase with full mailboxes.",
+        "note": PROOF_NOTE,
+        "technique": "Lean 4 fold-invariant proof (budget argument over the split select) + correspondence + Lean monitors on real traces",
+        "monitors": ["C06"],
+        "corr": corr(["burst", "mixed", "idle"]),
+        "extract_items": [],
+        "assumptions": COMMON_ASSUME,
+    },
+})
+
 NOT_APPLICABLE = {p: "check not built yet in this session (work in progress; see DESIGN.md §12 build order)" for p in
                   ["C%02d" % i for i in range(1, 21)]}
